@@ -553,11 +553,11 @@ impl<T: AsRef<[u8]>> UdpNhcPacket<T> {
                 NetworkEndian::read_u16(&data[idx + 2..idx + 4])
             }
             0b01 => {
-                // The first 8 bits are elided.
+                // The first 8 bits are elided; the octet follows the 16-bit source port.
                 let data = self.buffer.as_ref();
                 let idx = self.nhc_fields_start();
 
-                0xf000 + data[idx] as u16
+                0xf000 + data[idx + 2] as u16
             }
             0b10 => {
                 // The full 16 bits are carried in-line.
